@@ -42,6 +42,8 @@ struct Case {
     /// the case directory (<base>/cN): origin of `@BASE@` and parent of `ext`
     top: PathBuf,
     root: PathBuf,
+    /// canonical form of `root` when the root is reached through a symlink (`linkprefix`)
+    real_root: Option<PathBuf>,
     db: FixtureDatabase,
     texts: HashMap<String, Vec<u8>>,
     idx: usize,
@@ -62,7 +64,11 @@ impl Case {
         if let Ok(r) = p.strip_prefix(self.top.join("ext")) {
             return format!("@EXT/{}", r.to_string_lossy());
         }
-        match p.strip_prefix(&self.root) {
+        let under_root = p.strip_prefix(&self.root).or_else(|e| match &self.real_root {
+            Some(real) => p.strip_prefix(real),
+            None => Err(e),
+        });
+        match under_root {
             Ok(r) => {
                 let s = r.to_string_lossy().to_string();
                 if s.is_empty() {
@@ -523,6 +529,7 @@ fn main() {
                     name: t.get(1).unwrap_or(&"?").to_string(),
                     top,
                     root,
+                    real_root: None,
                     db: FixtureDatabase::new(),
                     texts: HashMap::new(),
                     idx: 0,
@@ -534,6 +541,21 @@ fn main() {
                     let _ = std::fs::remove_dir_all(&c.root);
                     c.root = c.top.join(t[1]).join("ws");
                     let _ = std::fs::create_dir_all(&c.root);
+                }
+            }
+            "linkprefix" => {
+                // like `prefix`, but the first directory of the prefix is a SYMLINK to the real tree:
+                // the root the scan is given is not in canonical form
+                if let Some(c) = cur.as_mut() {
+                    let _ = std::fs::remove_dir_all(&c.root);
+                    let first = t[1].split('/').next().unwrap_or("lnk");
+                    let real_first = c.top.join("realtree").join(first);
+                    let real_root = c.top.join("realtree").join(t[1]).join("ws");
+                    let _ = std::fs::create_dir_all(&real_root);
+                    #[cfg(unix)]
+                    let _ = std::os::unix::fs::symlink(&real_first, c.top.join(first));
+                    c.root = c.top.join(t[1]).join("ws");
+                    c.real_root = real_root.canonicalize().ok();
                 }
             }
             "rootname" => {
